@@ -14,8 +14,10 @@ PatSection(pat) == Section(0, TRUE, FALSE, PatBody(pat))
 \* the payload that carries it with pointer_field 0, padded with n stuffing bytes
 PatPayload(pat, n) == <<0>> \o PatSection(pat) \o Rep(255, n)
 
-WFPat(pat) == /\ pat.tsid \in 0..65535 /\ pat.version \in 0..31
-              /\ \A i \in 1..Len(pat.entries) : pat.entries[i][1] \in 0..65535 /\ pat.entries[i][2] \in 0..8191
+\* field ranges only (a PAT that lists a program_number twice can still be serialised)
+Encodable(pat) == /\ pat.tsid \in 0..65535 /\ pat.version \in 0..31
+                  /\ \A i \in 1..Len(pat.entries) : pat.entries[i][1] \in 0..65535 /\ pat.entries[i][2] \in 0..8191
+WFPat(pat) == /\ Encodable(pat)
               /\ \A i, j \in 1..Len(pat.entries) : i # j => pat.entries[i][1] # pat.entries[j][1]
 
 NumPrograms(pat) == Len(pat.entries)
